@@ -117,12 +117,15 @@ def run(tier, seed, extra=None):
         "tie to the code = correspondence: the model instantiated with the implementation's uncancelled trace predicts every cancelled run "
         "(all k up to the poll cap: 160 quick / 400 thorough; infinite programs are cut at the cap)",
         "a custom context.Context whose Done() counts calls: call number = poll index (env.ctx != context.Background() enables polling)",
+        "coq/c01vm (other slice) is the concrete VM model of fragment F; c07/VMLink.v packages its step as the abstract [step]; stream c07vm: "
+        "24 F programs x 10 inputs, pc/backtrack of every instruction fetch (from debug.go's trace) = the model's, and every cancelled run "
+        "(all k) = Cancel.calls over that concrete step, up to the first error value",
         "instruction fetches are counted through debug.go's env.debugState (build tag gojq_debug, hook verif_vm_debug.go), which is the first "
         "statement of the loop body; oracle: fetches == polls after every Next",
     ]
     c.prove(PROPS)
     exe_h, hlog = V.build_harness("c07")
-    st, std = {}, {}
+    st, std, stv = {}, {}, {}
     if exe_h is None:
         c.broken_correspondence("harness-build", None, V.tail(hlog, 40))
     else:
@@ -139,11 +142,24 @@ def run(tier, seed, extra=None):
                 # same programs with fetch counting on a sample of the cancellation points (slow binary: the debug
                 # trace formats the stack at every instruction); only its implementation oracles are used
                 std = correspond(c, exe_m, "c07dbg", seed, n if tier == "quick" else 150, "quick", extra=extra, name="c07dbg", oracles_only=True)
+                if not extra:
+                    # the abstract machine instantiated with the concrete step of coq/c01vm (c07/VMLink.v) on fragment-F programs:
+                    # pc/backtrack of every instruction fetch and every cancelled run must be reproduced by the model
+                    rc, out, cases, stv = V.run_harness("c07dbg", "c07vm", seed, 0, tier, name="c07vm")
+                    if rc != 0:
+                        c.broken_correspondence("harness-run c07vm", None, V.tail(out, 40))
+                    else:
+                        for v in (stv.get("impl_violations") or [])[:5]:
+                            c.broken_correspondence("c07vm", None, v)
+                        for line, verdict in V.compare_model(c, exe_m, cases, "c07vm")[:10]:
+                            m = re.match(r"^\(c07vm (.*?) \(pcs ", line)
+                            c.broken_correspondence("c07vm", "ast+input=%s" % (m.group(1)[:300] if m else "?"),
+                                                    "Cancel.calls over c01vm's step (VMLink.vm_fetch): " + verdict[:600])
     rule = ("programs: ~290 fixed (finite, error mid-stream, try/catch, label/break, limit/first/until/while/repeat/recurse/range, "
             "reduce/foreach, paths/updates, user functions, native Go iterators, inputs, 60 infinite forms) + seeded generator x wrapper "
             "compositions; for each program EVERY cancellation poll k = 0..N (N = polls of the finite run, or the cap) and 3 extra Next calls; "
             "distinct = distinct program lines")
-    return c.finish(rule, extra_cov=dict(harness_stats=st, harness_stats_fetch_counting=std))
+    return c.finish(rule, extra_cov=dict(harness_stats=st, harness_stats_fetch_counting=std, harness_stats_c07vm=stv))
 
 
 def replay(path):
